@@ -521,17 +521,18 @@ func genFacts() string {
 		}
 		for _, fl := range lits {
 			nWorkers++
-			if writesReceiverState(fl, recv) {
+			if writesReceiverState(fl, recv) || len(receiverCallsAndEscapes(fl, recv)) > 0 {
 				workerFree = false
 			}
 		}
 	}
-	fmt.Fprintf(&b, "/-- The encoder/decoder closures of FastCommit, NondeterministicFastCommit and BatchPreload\n    contain no assignment, inc/dec, delete or clear whose target mentions the storage receiver. -/\ndef workerClosuresWriteFree : Bool := %s\n", leanBool(workerFree && nWorkers == 3))
+	fmt.Fprintf(&b, "/-- The encoder/decoder closures of FastCommit, NondeterministicFastCommit and BatchPreload\n    contain no assignment, inc/dec, delete or clear whose target mentions the storage receiver, no call\n    rooted at the receiver outside the read-only list, no use of the receiver as a value and no address of\n    one of its fields (see workerClosureReceiverUses). -/\ndef workerClosuresWriteFree : Bool := %s\n", leanBool(workerFree && nWorkers == 3))
 	fmt.Fprintf(&b, "def workerClosureCount : Nat := %d\n\n", nWorkers)
 
 	// base storage writes only in the commit functions
-	stores := callSites("s.baseStorage.Store")
-	removes := callSites("s.baseStorage.Remove")
+	// (alias-robust: any expression denoting the base storage, see poolfacts.go)
+	stores := baseStorageCallers("Store")
+	removes := baseStorageCallers("Remove")
 	fmt.Fprintf(&b, "/-- Functions of package atree that call `s.baseStorage.Store`. -/\ndef baseStoreCallers : List String := %s\n", leanStrList(stores))
 	fmt.Fprintf(&b, "/-- Functions of package atree that call `s.baseStorage.Remove`. -/\ndef baseRemoveCallers : List String := %s\n\n", leanStrList(removes))
 
@@ -544,12 +545,14 @@ func genFacts() string {
 			continue
 		}
 		putFns = append(putFns, fn)
-		if !resetBeforePut(fd) {
+		if !resetBeforePut(fd) || !resetThenPutSameObject(fd) {
 			put = false
 		}
 	}
 	fmt.Fprintf(&b, "/-- Every pool `put*` helper calls Reset before handing the object back to its sync.Pool. -/\ndef putResetsBeforePool : Bool := %s\n", leanBool(put && len(putFns) > 0))
 	fmt.Fprintf(&b, "def poolPutHelpers : List String := %s\n\n", leanStrList(putFns))
+
+	b.WriteString(genPoolFacts())
 
 	// storage effect call sites, per function, in source order
 	fmt.Fprintf(&b, "/-- Source-order list of storeSlab / storage.Remove / GenerateSlabID call sites per function. -/\ndef storageCallSites : List (String × List String) := [\n")
